@@ -98,13 +98,12 @@ func H_C08_bin() {
 				if mode == 3 {
 					if r.Next() {
 						vPoke(r)
-						vassert(r.StepOut() == nil || true, "")
 						vcover("child")
-					} else {
-						vassert(r.StepOut() == nil, "StepOut succeeds")
 					}
-				} else {
-					vassert(r.StepOut() == nil, "StepOut succeeds")
+				}
+				vassert(r.StepOut() == nil, "StepOut succeeds")
+				if top[k].after != 0 {
+					vassert(vObserveState(r) == top[k].after, "after StepOut the Reader shows what a full traversal shows after StepOut")
 				}
 				vcover("container")
 			}
